@@ -713,7 +713,7 @@ fn ob_mpmc_core_poll_recv_batch_cap3r1() { step_poll_recv_batch(3, 1, false); }
 #[kani::unwind(8)]
 fn ob_mpmc_core_poll_recv_batch_cap3r1re() { step_poll_recv_batch(3, 1, true); }
 
-// @obligation id=mpmc.core.poll_recv_batch_pending.cap1r1re props=C06 kind=step tier=quick bound="logical capacity 1, EMPTY buffer, a sender alive, 1 async receiver waiter(s) (WAITING or CANCELLED); this future already queued (re-poll with a new waker); max = 1"
+// @obligation id=mpmc.core.poll_recv_batch_pending.cap1r1re props=C06 kind=step tier=thorough bound="logical capacity 1, EMPTY buffer, a sender alive, 1 async receiver waiter(s) (WAITING or CANCELLED); this future already queued (re-poll with a new waker); max = 1"
 #[kani::proof]
 #[kani::stub(std::thread::current::current, crate::verif_k_stubs::stub_thread_current)]
 #[kani::stub(parking_lot::RawMutex::lock_slow, crate::verif_k_stubs::stub_lock_slow)]
@@ -722,7 +722,7 @@ fn ob_mpmc_core_poll_recv_batch_cap3r1re() { step_poll_recv_batch(3, 1, true); }
 #[kani::unwind(8)]
 fn ob_mpmc_core_poll_recv_batch_pending_cap1r1re() { step_poll_recv_batch_pending(1, 1, true); }
 
-// @obligation id=mpmc.core.poll_recv_batch_pending.cap1r1 props=C06 kind=step tier=quick bound="logical capacity 1, EMPTY buffer, a sender alive, 1 async receiver waiter(s) (WAITING or CANCELLED); max = 1"
+// @obligation id=mpmc.core.poll_recv_batch_pending.cap1r1 props=C06 kind=step tier=thorough bound="logical capacity 1, EMPTY buffer, a sender alive, 1 async receiver waiter(s) (WAITING or CANCELLED); max = 1"
 #[kani::proof]
 #[kani::stub(std::thread::current::current, crate::verif_k_stubs::stub_thread_current)]
 #[kani::stub(parking_lot::RawMutex::lock_slow, crate::verif_k_stubs::stub_lock_slow)]
